@@ -2,6 +2,8 @@ package rules
 
 import (
 	"fmt"
+	"go/token"
+	"go/types"
 	"regexp"
 	"regexp/syntax"
 	"strings"
@@ -117,6 +119,18 @@ func (c *Ctx) valueLanguage(v ssa.Value, fn *ssa.Function, depth int) (*rx.Lang,
 			if g, ok := fa.X.(*ssa.Global); ok {
 				return c.flagFieldLanguage(g, fa.Field)
 			}
+			// a field of a state struct (walk callback turned into a method, a table of templates):
+			// every store to that field in the repository must agree
+			if l, w, why, found := c.fieldLanguage(fa, depth); found {
+				return l, w, why
+			}
+		}
+	case *ssa.Field:
+		// the same through a struct value
+		if st, ok := x.X.Type().Underlying().(*types.Struct); ok {
+			if l, w, why, found := c.fieldLanguageOf(st.Field(x.Field), depth); found {
+				return l, w, why
+			}
 		}
 	case *ssa.Call:
 		// strings.Join(re.FindAllString(_, -1), "") with re = `\d+`: digits only
@@ -158,6 +172,55 @@ func (c *Ctx) valueLanguage(v ssa.Value, fn *ssa.Function, depth int) (*rx.Lang,
 		}
 	}
 	return nil, "", fmt.Sprintf("inserted value %T has no known language", v)
+}
+
+func (c *Ctx) fieldLanguage(fa *ssa.FieldAddr, depth int) (*rx.Lang, string, string, bool) {
+	st, ok := derefType(fa.X.Type()).Underlying().(*types.Struct)
+	if !ok {
+		return nil, "", "", false
+	}
+	return c.fieldLanguageOf(st.Field(fa.Field), depth)
+}
+
+// fieldLanguageOf: the common language of everything the repository stores into field fv.
+func (c *Ctx) fieldLanguageOf(fv *types.Var, depth int) (*rx.Lang, string, string, bool) {
+	type stored struct {
+		v  ssa.Value
+		fn *ssa.Function
+	}
+	var vals []stored
+	for _, fn := range c.P.RepoFns {
+		allInstrs(fn, func(in ssa.Instruction) {
+			st, ok := in.(*ssa.Store)
+			if !ok {
+				return
+			}
+			fa, ok := st.Addr.(*ssa.FieldAddr)
+			if !ok {
+				return
+			}
+			sty, ok := derefType(fa.X.Type()).Underlying().(*types.Struct)
+			if ok && sty.Field(fa.Field) == fv {
+				vals = append(vals, stored{st.Val, fn})
+			}
+		})
+	}
+	if len(vals) == 0 {
+		return nil, "", "", false
+	}
+	var lang *rx.Lang
+	what := ""
+	for _, sv := range vals {
+		l, w, why := c.valueLanguage(sv.v, sv.fn, depth+1)
+		if l == nil {
+			return nil, "", why, true
+		}
+		if lang != nil && w != what {
+			return nil, "", "the stores to field " + fv.Name() + " disagree on what is inserted", true
+		}
+		lang, what = l, w
+	}
+	return lang, what, "", true
 }
 
 // flagFieldLanguage: the language of a string flag bound to field fieldIdx of
@@ -349,6 +412,115 @@ func (c *Ctx) RuleRxIncl() *Result {
 	return res
 }
 
+// templateShape normalises a replacement template to a constant format with %s
+// verbs and the inserted values: a Sprintf of a constant format, a
+// concatenation of constants and values, or either of them stored once in a
+// local or in a struct field (a table of templates built by a helper).
+func (c *Ctx) templateShape(v ssa.Value, fn *ssa.Function, depth int) (string, []ssa.Value, *ssa.Function, string) {
+	if depth > 4 {
+		return "", nil, nil, "the replacement template is followed too deep"
+	}
+	v = stripConv(v)
+	switch x := v.(type) {
+	case *ssa.Const:
+		if sv, ok := constString(x); ok {
+			return strings.ReplaceAll(sv, "%", "%%"), nil, fn, ""
+		}
+	case *ssa.Call:
+		if isFn(staticCallee(&x.Call), "fmt", "Sprintf") {
+			format, ok := constString(x.Call.Args[0])
+			if !ok {
+				return "", nil, nil, "the replacement template format is not constant"
+			}
+			var args []ssa.Value
+			if len(x.Call.Args) > 1 {
+				if sl, ok := x.Call.Args[1].(*ssa.Slice); ok {
+					args = variadicElems(sl)
+				}
+			}
+			return format, args, fn, ""
+		}
+	case *ssa.BinOp:
+		if x.Op == token.ADD {
+			var ops []ssa.Value
+			var flat func(w ssa.Value)
+			flat = func(w ssa.Value) {
+				if b, ok := w.(*ssa.BinOp); ok && b.Op == token.ADD {
+					flat(b.X)
+					flat(b.Y)
+					return
+				}
+				ops = append(ops, w)
+			}
+			flat(x)
+			format := ""
+			var args []ssa.Value
+			for _, o := range ops {
+				if sv, ok := constString(o); ok {
+					format += strings.ReplaceAll(sv, "%", "%%")
+				} else {
+					format += "%s"
+					args = append(args, o)
+				}
+			}
+			return format, args, fn, ""
+		}
+	case *ssa.UnOp:
+		if x.Op != token.MUL {
+			break
+		}
+		if al, ok := x.X.(*ssa.Alloc); ok {
+			var stored []ssa.Value
+			for _, r := range referrers(al) {
+				if st, ok := r.(*ssa.Store); ok && st.Addr == ssa.Value(al) {
+					stored = append(stored, st.Val)
+				}
+			}
+			if len(stored) == 1 {
+				return c.templateShape(stored[0], fn, depth+1)
+			}
+		}
+		if fa, ok := x.X.(*ssa.FieldAddr); ok {
+			if _, isGlobal := fa.X.(*ssa.Global); !isGlobal {
+				if st, ok := derefType(fa.X.Type()).Underlying().(*types.Struct); ok {
+					return c.templateFromField(st.Field(fa.Field), depth)
+				}
+			}
+		}
+	case *ssa.Field:
+		if st, ok := x.X.Type().Underlying().(*types.Struct); ok {
+			return c.templateFromField(st.Field(x.Field), depth)
+		}
+	}
+	return "", nil, nil, "the replacement template is not a Sprintf of a constant format or a concatenation around the inserted value"
+}
+
+func (c *Ctx) templateFromField(fv *types.Var, depth int) (string, []ssa.Value, *ssa.Function, string) {
+	var val ssa.Value
+	var in *ssa.Function
+	n := 0
+	for _, fn := range c.P.RepoFns {
+		allInstrs(fn, func(inr ssa.Instruction) {
+			st, ok := inr.(*ssa.Store)
+			if !ok {
+				return
+			}
+			fa, ok := st.Addr.(*ssa.FieldAddr)
+			if !ok {
+				return
+			}
+			if sty, ok := derefType(fa.X.Type()).Underlying().(*types.Struct); ok && sty.Field(fa.Field) == fv {
+				val, in = st.Val, fn
+				n++
+			}
+		})
+	}
+	if n != 1 {
+		return "", nil, nil, fmt.Sprintf("the replacement template is read from field %s, which is assigned at %d places", fv.Name(), n)
+	}
+	return c.templateShape(val, in, depth+1)
+}
+
 // inclOne judges one (pattern, template) pair of a ReplaceAll call.
 func (c *Ctx) inclOne(res *Result, fn *ssa.Function, call *ssa.Call, recv ssa.Value, tmpl ssa.Value) {
 	func() {
@@ -361,23 +533,12 @@ func (c *Ctx) inclOne(res *Result, fn *ssa.Function, call *ssa.Call, recv ssa.Va
 		}
 		key := load.FnName(fn) + ":replace " + p.Name
 		// template
-		tv := stripConv(tmpl)
-		tcall, ok := tv.(*ssa.Call)
-		if !ok || !isFn(staticCallee(&tcall.Call), "fmt", "Sprintf") {
-			res.undecided(key, pos, "the replacement template is not a Sprintf of a constant format")
+		format, args, argFn, twhy := c.templateShape(tmpl, fn, 0)
+		if twhy != "" {
+			res.undecided(key, pos, twhy)
 			return
 		}
-		format, ok := constString(tcall.Call.Args[0])
-		if !ok {
-			res.undecided(key, pos, "the replacement template format is not constant")
-			return
-		}
-		var args []ssa.Value
-		if len(tcall.Call.Args) > 1 {
-			if sl, ok := tcall.Call.Args[1].(*ssa.Slice); ok {
-				args = variadicElems(sl)
-			}
-		}
+		fn := argFn
 		toks := parseTemplate(format)
 		// top-level elements of the pattern without anchors
 		elems := flattenConcat(p.Re)
